@@ -95,12 +95,12 @@ NodeOf(T, id) == CHOOSE c \in DOMAIN T : T[c] = id
 EntriesOf(T) == {<<T[c], c[1], c[2], c[3]>> : c \in DOMAIN T}
 MaxId(T) == CHOOSE m \in IdsOf(T) : \A j \in IdsOf(T) : j <= m
 RECURSIVE TypeOf(_, _)
-TypeOf(T, id) == LET c == NodeOf(T, id) IN OpType(c[1], [i \in DOMAIN c[2] |-> TypeOf(T, c[2][i])], c[3])
+TypeOf(T, id) == LET c == NodeOf(T, id) IN OpType(c[1], TLCEval([i \in DOMAIN c[2] |-> TypeOf(T, c[2][i])]), c[3])
 \* the term (tree) a node denotes
 RECURSIVE TermOf(_, _)
-TermOf(T, id) == LET c == NodeOf(T, id) IN <<c[1], [i \in DOMAIN c[2] |-> TermOf(T, c[2][i])], c[3]>>
+TermOf(T, id) == LET c == NodeOf(T, id) IN TLCEval(<<c[1], [i \in DOMAIN c[2] |-> TermOf(T, c[2][i])], c[3]>>)
 RECURSIVE TermType(_)
-TermType(t) == OpType(t[1], [i \in DOMAIN t[2] |-> TermType(t[2][i])], t[3])
+TermType(t) == OpType(t[1], TLCEval([i \in DOMAIN t[2] |-> TermType(t[2][i])]), t[3])
 
 \* call arguments ("atoms"): <<"n", id, "">> an existing node, <<"l", 0, name>> a fluent object,
 \* <<"v", 0, token>> a numeric literal
@@ -168,7 +168,7 @@ Apply(T, n, k, atoms, Rec) ==
    LET p == Prom(T, n, atoms, Rec, <<>>)
        nf == NFId(k, p.ids, p.T)
    IN IF nf.pass THEN [ok |-> TRUE, T |-> p.T, n |-> p.n, res |-> nf.id, c |-> nf.c]
-      ELSE LET ty == OpType(nf.c[1], [i \in DOMAIN nf.c[2] |-> TypeOf(p.T, nf.c[2][i])], nf.c[3])
+      ELSE LET ty == OpType(nf.c[1], TLCEval([i \in DOMAIN nf.c[2] |-> TypeOf(p.T, nf.c[2][i])]), nf.c[3])
                r == Intern(p.T, p.n, nf.c, Rec)
            IN IF ty # "none" \/ (CacheFirst /\ nf.c \in DOMAIN p.T)
               THEN [ok |-> TRUE, T |-> r.T, n |-> r.n, res |-> r.id, c |-> nf.c]
@@ -181,21 +181,14 @@ InitWith(t, f) == /\ table = (TrueC :> t) @@ (FalseC :> f)
                   /\ nextId = (IF t > f THEN t ELSE f) + 1
 Init == InitWith(1, 2)
 
-Mk(k, atoms, Rec) ==
-   /\ WFCall(k, atoms, table)
-   /\ LET r == Apply(table, nextId, k, atoms, Rec) IN
-      /\ r.ok
-      /\ table' = r.T
-      /\ nextId' = r.n
-
+\* the two kinds of transition, given the outcome r = Apply(table, nextId, k, atoms, Rec) of the call
+MkWith(r) == r.ok /\ table' = r.T /\ nextId' = r.n
 \* an ill-typed attempt: only the promoted arguments may have entered the table;
 \* the environment may or may not consume an id (gap)
-MkReject(k, atoms, Rec, gap) ==
-   /\ WFCall(k, atoms, table)
-   /\ LET r == Apply(table, nextId, k, atoms, Rec) IN
-      /\ ~r.ok
-      /\ table' = r.T
-      /\ nextId' = r.n + gap
+MkRejectWith(r, gap) == ~r.ok /\ table' = r.T /\ nextId' = r.n + gap
+
+Mk(k, atoms, Rec) == WFCall(k, atoms, table) /\ MkWith(Apply(table, nextId, k, atoms, Rec))
+MkReject(k, atoms, Rec, gap) == WFCall(k, atoms, table) /\ MkRejectWith(Apply(table, nextId, k, atoms, Rec), gap)
 
 \* calls of the T1 alphabet in a state with table T
 NodeAtoms(T) == {<<"n", i, "">> : i \in IdsOf(T)}
